@@ -21,6 +21,9 @@ def endings():
     for mode in ('now', 'late', 'error', 'raise', 'late-error'):
         E.append(('rr-' + mode, dict(kind='rr', rr_mode=mode)))
     E.append(('rr-cancel', dict(kind='rr', rr_mode='late', cancel_after=0)))
+    # cancel racing a response that the handler had ready at once (resolved / failed future): CANCEL may arrive in the same read as the request
+    E.append(('rr-now-cancel', dict(kind='rr', rr_mode='now', cancel_after=0)))
+    E.append(('rr-error-cancel', dict(kind='rr', rr_mode='error', cancel_after=0)))
     # stream
     for pub in ('manual', 'gen', 'agen'):
         for ending in ('complete', 'flag') if pub == 'manual' else ('flag',):
